@@ -467,6 +467,9 @@ func (p *Parser) parseBuffer(buf []byte, last bool) error {
 			p.mode = expZeroMap
 			if b == '-' {
 				p.num.NegExp = true
+				if 0 < len(p.num.BigBuf) {
+					p.num.BigBuf = append(p.num.BigBuf, b)
+				}
 			}
 			continue
 		case expDigit:
